@@ -1803,5 +1803,316 @@ theorem cd_lenOK_replicate : ∀ (n m : Nat), cd_lenOK (List.replicate n (0, 0))
       | succ n => exact cd_lenOK_replicate n m
 
 
+/-! ### slices that start at a coordinate b -/
+
+/-- number of leading coordinates below `b` -/
+def cd_lb (l : List Int) (b : Int) : Nat := (l.takeWhile (fun c => decide (c < b))).length
+
+theorem cd_lb_cons (c : Int) (r : List Int) (b : Int) :
+    cd_lb (c :: r) b = if c < b then cd_lb r b + 1 else 0 := by
+  unfold cd_lb
+  by_cases h : c < b <;> simp [List.takeWhile_cons, h]
+
+theorem cd_inc_tail {c : Int} {r : List Int} (h : Inc (c :: r)) : Inc r := (List.pairwise_cons.1 h).2
+theorem cd_inc_head {c : Int} {r : List Int} (h : Inc (c :: r)) : ∀ x ∈ r, c < x := (List.pairwise_cons.1 h).1
+
+/-- on a strictly increasing list, keeping the coordinates `≥ b` drops exactly the first `cd_lb` ones -/
+theorem cd_filter_zipIdx (l : List Int) (hinc : Inc l) (b : Int) (k0 : Nat) :
+    (l.zipIdx k0).filter (fun e => decide (b ≤ e.1)) = (l.drop (cd_lb l b)).zipIdx (k0 + cd_lb l b) := by
+  induction l generalizing k0 with
+  | nil => simp [cd_lb]
+  | cons c r ih =>
+    rw [cd_lb_cons]
+    by_cases h : c < b
+    · rw [if_pos h, List.zipIdx_cons, List.filter_cons, if_neg (by simp; omega), ih (cd_inc_tail hinc) (k0 + 1)]
+      simp only [List.drop_succ_cons]
+      congr 1; omega
+    · rw [if_neg h]
+      simp only [List.drop_zero, Nat.add_zero]
+      rw [List.filter_eq_self]
+      intro e he
+      have hm := List.mem_zipIdx he
+      have hmem : e.1 ∈ c :: r := by
+        have := hm.2.2
+        rw [this]; exact List.getElem_mem _
+      rcases List.mem_cons.1 hmem with h1 | h1
+      · simp; omega
+      · have := cd_inc_head hinc _ h1; simp; omega
+
+theorem cd_drop_lb_ge (l : List Int) (hinc : Inc l) (b : Int) : ∀ x ∈ l.drop (cd_lb l b), b ≤ x := by
+  induction l with
+  | nil => intro x hx; simp at hx
+  | cons c r ih =>
+    intro x hx
+    rw [cd_lb_cons] at hx
+    by_cases h : c < b
+    · rw [if_pos h, List.drop_succ_cons] at hx; exact ih (cd_inc_tail hinc) x hx
+    · rw [if_neg h, List.drop_zero] at hx
+      rcases List.mem_cons.1 hx with h1 | h1
+      · omega
+      · have := cd_inc_head hinc _ h1; omega
+
+theorem cd_take_lb_lt (l : List Int) (b : Int) : ∀ x ∈ l.take (cd_lb l b), x < b := by
+  induction l with
+  | nil => intro x hx; simp at hx
+  | cons c r ih =>
+    intro x hx
+    rw [cd_lb_cons] at hx
+    by_cases h : c < b
+    · rw [if_pos h, List.take_succ_cons] at hx
+      rcases List.mem_cons.1 hx with h1 | h1
+      · omega
+      · exact ih x h1
+    · rw [if_neg h] at hx; simp at hx
+
+theorem cd_lb_le (l : List Int) (b : Int) : cd_lb l b ≤ l.length := by
+  induction l with
+  | nil => simp [cd_lb]
+  | cons c r ih =>
+    rw [cd_lb_cons]
+    by_cases h : c < b
+    · rw [if_pos h]; simp; omega
+    · rw [if_neg h]; simp
+
+theorem cd_posFrom_drop (lo m k : Nat) (hk : k ≤ m) : (posFrom lo m).drop k = posFrom (lo + k) (m - k) := by
+  induction k generalizing lo m with
+  | zero => simp
+  | succ k ih =>
+    cases m with
+    | zero => omega
+    | succ m =>
+      rw [posFrom_succ, List.drop_succ_cons, ih (lo + 1) m (by omega)]
+      congr 1 <;> omega
+
+theorem cd_lb_posFrom (lo m : Nat) (b : Nat) (hb1 : lo ≤ b) (hb2 : b ≤ lo + m) :
+    cd_lb (posFrom lo m) (b : Int) = b - lo := by
+  induction m generalizing lo with
+  | zero => simp [posFrom_zero, cd_lb]; omega
+  | succ m ih =>
+    rw [posFrom_succ, cd_lb_cons]
+    by_cases h : (lo : Int) < (b : Int)
+    · rw [if_pos h, ih (lo + 1) (by omega) (by omega)]; omega
+    · rw [if_neg h]; omega
+
+
+theorem cd_scanBase_U (F : EFib) (hF : FibFacts F) (hf : F.fmt = .U) (b : Nat) (hb : b ≤ F.shape) :
+    F.scanBase b = cd_specFromB F.payBase (F.ecoords.drop (cd_lb F.ecoords b)) (cd_lb F.ecoords b) := by
+  have hsh : F.n = F.shape := by rw [hF.n_eq, hF.dense hf]; simp [irange]
+  have hnp : F.npay = F.shape := by rw [hF.npay_eq, hf]; exact hsh
+  have hcu : ¬ (F.fmt = .C ∧ F.next = some .U) := by rw [hf]; intro h; cases h.1
+  rw [cd_payBase_zero F hcu, cd_specFromB_zero, hF.dense hf, irange_eq,
+    cd_lb_posFrom 0 F.shape b (Nat.zero_le _) (by omega), cd_posFrom_drop 0 F.shape (b - 0) (by omega)]
+  simp only [EFib.scanBase, EFib.coordToHandle, hf, Nat.sub_zero, Nat.zero_add]
+  by_cases hlt : b < F.shape
+  · have : ¬ (((b : Nat) : Int) < 0 ∨ ((b : Nat) : Int) ≥ (F.shape : Int)) := by omega
+    rw [if_neg this]
+    simp only [Int.toNat_natCast]
+    exact scanFrom_U F hf hnp (F.shape - b) b (by omega)
+  · have hbe : b = F.shape := by omega
+    have : (((b : Nat) : Int) < 0 ∨ ((b : Nat) : Int) ≥ (F.shape : Int)) := by omega
+    rw [if_pos this, hbe, Nat.sub_self, posFrom_zero]
+    rfl
+
+theorem cd_scanBase_C (F : EFib) (hF : FibFacts F) (hf : F.fmt = .C) (b : Nat) :
+    F.scanBase b = cd_specFromB F.payBase (F.ecoords.drop (cd_lb F.ecoords b)) (cd_lb F.ecoords b) := by
+  have hc : F.coords = F.ecoords := by rw [hF.coords_eq, hf]; rfl
+  simp only [EFib.scanBase, EFib.coordToHandle, hf]
+  rw [hc, c2hC_lowerHandle F.ecoords hF.inc b]
+  show (match (if cd_lb F.ecoords b < F.ecoords.length then some (cd_lb F.ecoords b) else none) with
+        | some h => scanFrom F F.ecoords.length h
+        | none => []) = _
+  by_cases hlt : cd_lb F.ecoords b < F.ecoords.length
+  · rw [if_pos hlt]
+    simp only
+    by_cases hcu : F.fmt = .C ∧ F.next = some .U
+    · rw [cd_payBase_CU F hcu.1 hcu.2]
+      have := scanFrom_CU F hf hcu.2 (F.coords.length - cd_lb F.ecoords b) (cd_lb F.ecoords b) (by rw [hc]; omega)
+      rw [hc] at this; exact this
+    · rw [cd_payBase_zero F hcu, cd_specFromB_zero]
+      have := scanFrom_C F hf (fun h => hcu ⟨hf, h⟩) (F.coords.length - cd_lb F.ecoords b) (cd_lb F.ecoords b)
+        (by rw [hc]; omega)
+      rw [hc] at this; exact this
+  · rw [if_neg hlt]
+    have : F.ecoords.drop (cd_lb F.ecoords b) = [] := List.drop_eq_nil_of_le (by omega)
+    rw [this]; rfl
+
+
+theorem cd_posFrom_take (lo m k : Nat) (hk : k ≤ m) : (posFrom lo m).take k = posFrom lo k := by
+  induction k generalizing lo m with
+  | zero => simp [posFrom_zero]
+  | succ k ih =>
+    cases m with
+    | zero => omega
+    | succ m => rw [posFrom_succ, posFrom_succ, List.take_succ_cons, ih (lo + 1) m (by omega)]
+
+theorem cd_contains_drop (l : List Int) (hinc : Inc l) (b x : Int) (hx : b ≤ x) :
+    l.contains x = (l.drop (cd_lb l b)).contains x := by
+  have hl : l = l.take (cd_lb l b) ++ l.drop (cd_lb l b) := (List.take_append_drop _ _).symm
+  have hnot : (l.take (cd_lb l b)).contains x = false := by
+    rw [Bool.eq_false_iff]; intro h
+    have := cd_take_lb_lt l b x (List.contains_iff_mem.1 h); omega
+  conv => lhs; rw [hl]
+  rw [List.contains_eq_mem, List.contains_eq_mem] at *
+  simp only [List.mem_append, decide_eq_decide]
+  constructor
+  · rintro (h | h)
+    · have := cd_take_lb_lt l b x h; omega
+    · exact h
+  · exact Or.inr
+
+theorem cd_contains_take (l : List Int) (hinc : Inc l) (b x : Int) (hx : x < b) :
+    l.contains x = (l.take (cd_lb l b)).contains x := by
+  have hl : l = l.take (cd_lb l b) ++ l.drop (cd_lb l b) := (List.take_append_drop _ _).symm
+  conv => lhs; rw [hl]
+  rw [List.contains_eq_mem, List.contains_eq_mem]
+  simp only [List.mem_append, decide_eq_decide]
+  constructor
+  · rintro (h | h)
+    · exact h
+    · have := cd_drop_lb_ge l hinc b x h; omega
+  · exact Or.inl
+
+theorem cd_foldl_bits (l : List Int) (xs : List Int) (acc : Int) :
+    (xs.map (fun i => if l.contains i then (1 : Int) else 0)).foldl (· + ·) acc
+      = acc + ((xs.filter (fun i => l.contains i)).length : Nat) := by
+  induction xs generalizing acc with
+  | nil => simp
+  | cons x xs ih =>
+    simp only [List.map_cons, List.foldl_cons, List.filter_cons]
+    rw [ih]
+    by_cases h : l.contains x = true
+    · rw [if_pos h, if_pos h]; simp only [List.length_cons]; omega
+    · rw [if_neg h, if_neg h]; omega
+
+theorem cd_inc_sublists (l : List Int) (hinc : Inc l) (k : Nat) : Inc (l.take k) ∧ Inc (l.drop k) :=
+  ⟨hinc.sublist (List.take_sublist _ _), hinc.sublist (List.drop_sublist _ _)⟩
+
+theorem cd_scanBase_B (F : EFib) (hF : FibFacts F) (hf : F.fmt = .B) (b : Nat) (hb : b ≤ F.shape) :
+    F.scanBase b = cd_specFromB F.payBase (F.ecoords.drop (cd_lb F.ecoords b)) (cd_lb F.ecoords b) := by
+  have hc : F.coords = maskOf F.shape F.ecoords := by rw [hF.coords_eq, hf]; rfl
+  have hcu : ¬ (F.fmt = .C ∧ F.next = some .U) := by rw [hf]; intro h; cases h.1
+  have hnp : F.npay = F.ecoords.length := by rw [hF.npay_eq, hf, hF.n_eq]
+  have hincs := cd_inc_sublists F.ecoords hF.inc (cd_lb F.ecoords b)
+  -- the mask bits from position b on, and the set positions among them
+  have hdrop : F.coords.drop b = (posFrom b (F.shape - b)).map (fun i => if F.ecoords.contains i then (1 : Int) else 0) := by
+    rw [hc, maskOf, irange_eq, ← List.map_drop, cd_posFrom_drop 0 F.shape b hb, Nat.zero_add]
+  have htake : F.coords.take b = (posFrom 0 b).map (fun i => if F.ecoords.contains i then (1 : Int) else 0) := by
+    rw [hc, maskOf, irange_eq, ← List.map_take, cd_posFrom_take 0 F.shape b hb]
+  have hset : maskCoordsFrom b (F.coords.drop b) = F.ecoords.drop (cd_lb F.ecoords b) := by
+    rw [hdrop]
+    show ((((posFrom b (F.shape - b)).map (fun i => if F.ecoords.contains i then (1 : Int) else 0)).zipIdx b).filter
+        (fun e => !decide (e.1 = 0))).map (fun e => (e.2 : Int)) = _
+    rw [maskCoords_mask_aux (F.shape - b) b F.ecoords]
+    have hcongr : (posFrom b (F.shape - b)).filter (fun i => F.ecoords.contains i)
+        = (posFrom b (F.shape - b)).filter (fun i => (F.ecoords.drop (cd_lb F.ecoords b)).contains i) := by
+      apply List.filter_congr
+      intro x hx
+      exact cd_contains_drop F.ecoords hF.inc b x (mem_posFrom.1 hx).1
+    rw [hcongr]
+    apply filter_posFrom_contains (F.shape - b) b _ hincs.2
+    intro c hcm
+    have h1 := cd_drop_lb_ge F.ecoords hF.inc b c hcm
+    have h2 := (hF.inrange c (List.mem_of_mem_drop hcm)).2
+    constructor <;> omega
+  have hph : ((F.coords.take b).foldl (· + ·) 0).toNat = cd_lb F.ecoords b := by
+    rw [htake, cd_foldl_bits]
+    have hcongr : (posFrom 0 b).filter (fun i => F.ecoords.contains i)
+        = (posFrom 0 b).filter (fun i => (F.ecoords.take (cd_lb F.ecoords b)).contains i) := by
+      apply List.filter_congr
+      intro x hx
+      exact cd_contains_take F.ecoords hF.inc b x (by have := (mem_posFrom.1 hx).2; omega)
+    rw [hcongr, filter_posFrom_contains b 0 _ hincs.1]
+    · simp [List.length_take, Nat.min_eq_left (cd_lb_le _ _)]
+    · intro c hcm
+      have h1 := cd_take_lb_lt F.ecoords b c hcm
+      have h2 := (hF.inrange c (List.mem_of_mem_take hcm)).1
+      constructor <;> omega
+  rw [cd_payBase_zero F hcu, cd_specFromB_zero]
+  simp only [EFib.scanBase, hf]
+  rw [hph, ← hset]
+  apply scanBits_spec F hf (F.coords.drop b)
+    (by intro x hx; exact maskOf_01 F.shape F.ecoords x (by rw [← hc]; exact List.mem_of_mem_drop hx))
+  rw [hset, hnp, List.length_drop]
+  have := cd_lb_le F.ecoords b
+  omega
+
+
+theorem cd_scanBase_raw (F : EFib) (hF : FibFacts F) (b : Nat) (hb : b ≤ F.shape) :
+    F.scanBase b = cd_specFromB F.payBase (F.ecoords.drop (cd_lb F.ecoords b)) (cd_lb F.ecoords b) := by
+  cases hf : F.fmt with
+  | U => exact cd_scanBase_U F hF hf b hb
+  | C => exact cd_scanBase_C F hF hf b
+  | B => exact cd_scanBase_B F hF hf b hb
+
+/-- what payload handle `payBase + k` designates: the k-th leaf value resp. the k-th child -/
+theorem cd_resolve_spec (F : EFib) (hF : FibFacts F)
+    (hosf : F.fmt = .C → F.next = some .U → F.osf = F.kid0) (k : Nat) (hk : k < F.n) :
+    F.resolve (some (F.payBase + k)) =
+      (match F.next with
+       | none => some (F.vals.getD k 0)
+       | some _ => some ((F.kid0 + k : Nat) : Int)) := by
+  simp only [EFib.resolve]
+  by_cases hcu : F.fmt = .C ∧ F.next = some .U
+  · rw [cd_payBase_CU F hcu.1 hcu.2, hcu.2]
+    simp [hcu.1, hosf hcu.1 hcu.2]
+  · rw [cd_payBase_zero F hcu, Nat.zero_add]
+    cases hnx : F.next with
+    | none =>
+      have hnp : F.npay = F.n := by
+        rw [hF.npay_eq, hnx]; cases F.fmt <;> rfl
+      simp only [hnp]
+      rw [if_neg (by omega)]
+    | some g =>
+      have hnp : F.npay = F.n := by
+        rw [hF.npay_eq, hnx]
+        cases hf : F.fmt with
+        | U => rfl
+        | B => rfl
+        | C =>
+          cases g with
+          | U => exact absurd ⟨hf, hnx⟩ hcu
+          | C => rfl
+          | B => rfl
+      simp only [hnp]
+      have hne : ¬ (F.fmt = .C ∧ g = .U) := by
+        intro h; exact hcu ⟨h.1, by rw [hnx, h.2]⟩
+      rw [if_neg hne, if_pos hk]
+
+/-- the k-th element of the fiber as the layout defines it -/
+def cd_G (F : EFib) (e : Int × Nat) : Option Int × Option Int :=
+  (some e.1, match F.next with
+             | none => some (F.vals.getD e.2 0)
+             | some _ => some ((F.kid0 + e.2 : Nat) : Int))
+
+theorem cd_elemsSpec_eq (F : EFib) : F.elemsSpec = F.ecoords.zipIdx.map (cd_G F) := rfl
+
+theorem cd_elemsSpecFrom_eq (F : EFib) (b : Nat) :
+    F.elemsSpecFrom b = (F.ecoords.zipIdx.filter (fun e => decide ((b : Int) ≤ e.1))).map (cd_G F) := by
+  unfold EFib.elemsSpecFrom
+  rw [cd_elemsSpec_eq, List.filter_map]
+  rfl
+
+/-- a slice set up at coordinate `b` (inside the extent) delivers exactly the fiber's elements
+    at coordinates `≥ b`, in order, each with the payload it has in a full scan -/
+theorem cd_scanBase_elems (F : EFib) (hF : FibFacts F)
+    (hosf : F.fmt = .C → F.next = some .U → F.osf = F.kid0) (b : Nat) (hb : b ≤ F.shape) :
+    (F.scanBase b).map (fun e => (e.1, F.resolve e.2)) = F.elemsSpecFrom b := by
+  rw [cd_scanBase_raw F hF b hb, cd_elemsSpecFrom_eq]
+  have := cd_filter_zipIdx F.ecoords hF.inc b 0
+  rw [Nat.zero_add] at this
+  rw [this]
+  simp only [cd_specFromB, List.map_map]
+  apply List.map_congr_left
+  intro e he
+  have hk : e.2 < F.n := by
+    have := List.mem_zipIdx he
+    rw [hF.n_eq]
+    have hl := List.length_drop (i := cd_lb F.ecoords b) (l := F.ecoords)
+    have := cd_lb_le F.ecoords b
+    omega
+  simp only [Function.comp, cd_G]
+  rw [cd_resolve_spec F hF hosf e.2 hk]
+
+
 end Codec
 end Ft
